@@ -111,11 +111,31 @@ def h_wdiv(w, wdiv):
 
 def to_harness_graph(c):
     wdiv = c.get("wdiv", 1)
-    lines = ["spec %d %d %d %d %d %d" % tuple(c["spec"]),
+    lines = (["wscale %d" % c["wscale"]] if c.get("wscale") else []) + [
+             "spec %d %d %d %d %d %d" % tuple(c["spec"]),
              "nodes %d %s" % (len(c["nodes"]), " ".join(str(x) for x in c["nodes"])),
              "edges %d %s" % (len(c["edges"]),
                               " ".join("%d %d %s" % (u, v, h_wdiv(w, wdiv)) for u, v, w in c["edges"]))]
     return lines
+
+
+# dyadic weight scale: the harness multiplies every weight of the case by 2^k on input and divides the
+# weight-valued observations by 2^k on output (exact in binary64), so a correct implementation yields the
+# observations of the unscaled case bit for bit and the Coq model / the oracles run on the unscaled integers.
+# k = -60: path-length differences far below f64::EPSILON (absolute-tolerance comparisons show);
+# k = -3: all weights below 1 (clamps / max(1.0, .) normalisers show); k = 40: large magnitudes.
+WSCALES = [-60, -60, -3, 40]
+BIGODD = 1 << 24     # weights 2^24 + {1,2,3}: exact in binary64, not representable in binary32
+
+
+def weight_variant(r2, c, pct_scale=20, pct_big=8):
+    """decorates a weighted case (drawn from the separate stream r2 so that the base cases stay the same)"""
+    x = r2.below(100)
+    if x < pct_scale:
+        c["wscale"] = r2.pick(WSCALES)
+    elif x < pct_scale + pct_big:
+        c["edges"] = [(u, v, (w + BIGODD if w else w)) for (u, v, w) in c["edges"]]
+    return c
 
 
 def to_coq_graph(c):
@@ -195,6 +215,8 @@ def graph_from_json(j):
     if j.get("wdiv", 1) != 1:
         c["wdiv"] = j["wdiv"]
         c["nomodel"] = True
+    if j.get("wscale"):
+        c["wscale"] = j["wscale"]
     return c
 
 
@@ -202,7 +224,9 @@ def close(impl, exact, tol=1e-9):
     import math
     if isinstance(impl, float) and (math.isnan(impl) or math.isinf(impl)):
         return False
-    return abs(Fraction(impl) - Fraction(exact)) <= Fraction(tol) * max(1, abs(Fraction(exact)))
+    # relative to the exact value (absolute only at 0): values may be tiny (closeness over weights ~2^24)
+    ex = Fraction(exact)
+    return abs(Fraction(impl) - ex) <= Fraction(tol) * (abs(ex) if ex != 0 else 1)
 
 
 def all_pairs(nodes, w, weighted):
